@@ -75,6 +75,8 @@ class C20(Prop):
                 return "RInert"
             if t == "H":
                 return "RHandleDropped"
+            if t == "M":      # reached the recorder through the wrong method: not an outcome of the model; fails the spec walk
+                return "RRecovered 4294967295 4294967295"
             i, d = t[1:].split(":")
             return "RRecovered %s %s" % (cq_N(int(i)), cq_N(int(d)))
         return "(%s, %s, %s, %s, %s)" % (
